@@ -2,7 +2,7 @@
 From Coq Require Import ZArith List Bool Arith Lia Reals Lra Psatz.
 Set Warnings "-ambiguous-paths".
 From Coquelicot Require Import Coquelicot.
-From XF Require Import Arith BH.
+From XF Require Import Arith BH BHGauss.
 Import ListNotations.
 Local Open Scope R_scope.
 
@@ -1131,4 +1131,604 @@ Proof.
       by (rewrite <- app_assoc; reflexivity).
     rewrite (getH_on_segment m b1 _ (b1, b2, h1, h2, s1, s2) post Hi Hs);
       rewrite Ea; [reflexivity|cbn [lo hi]; lra].
+Qed.
+
+(* ====================================================================================== *)
+(* 10. table-level calculus: pasting of derivatives at knots                               *)
+(* ====================================================================================== *)
+Lemma is_derive_paste (f g h : R -> R) (k l r : R) :
+  0 < r ->
+  (forall x, k - r < x <= k -> h x = f x) ->
+  (forall x, k <= x < k + r -> h x = g x) ->
+  is_derive f k l -> is_derive g k l -> is_derive h k l.
+Proof.
+  intros Hr Hf Hg Df Dg.
+  apply is_derive_Reals. apply is_derive_Reals in Df. apply is_derive_Reals in Dg.
+  intros eps Heps.
+  destruct (Df eps Heps) as [d1 H1]. destruct (Dg eps Heps) as [d2 H2].
+  assert (Hd : 0 < Rmin (Rmin d1 d2) r).
+  { apply Rmin_pos; [apply Rmin_pos; [apply d1|apply d2]|exact Hr]. }
+  exists (mkposreal _ Hd). intros t Ht Habs. cbn [pos] in Habs.
+  assert (A1 : Rabs t < d1) by (eapply Rlt_le_trans; [exact Habs|]; eapply Rle_trans; [apply Rmin_l|apply Rmin_l]).
+  assert (A2 : Rabs t < d2) by (eapply Rlt_le_trans; [exact Habs|]; eapply Rle_trans; [apply Rmin_l|apply Rmin_r]).
+  assert (A3 : Rabs t < r) by (eapply Rlt_le_trans; [exact Habs|]; apply Rmin_r).
+  destruct (Rlt_dec 0 t) as [Hpos | Hneg].
+  - rewrite (Hg (k + t)), (Hg k).
+    + apply H2; auto.
+    + lra.
+    + rewrite Rabs_pos_eq in A3; lra.
+  - assert (Hneg' : t < 0) by lra.
+    rewrite (Hf (k + t)), (Hf k).
+    + apply H1; auto.
+    + lra.
+    + rewrite Rabs_left in A3; lra.
+Qed.
+
+Lemma is_derive_local (f h : R -> R) (k l r : R) :
+  0 < r -> (forall x, k - r < x < k + r -> h x = f x) -> is_derive f k l -> is_derive h k l.
+Proof.
+  intros Hr Hf Df.
+  apply (is_derive_paste f f h k l r Hr); auto; intros x Hx; apply Hf; lra.
+Qed.
+
+(* locating the segment of a point *)
+Lemma find_seg : forall Bd Hd Sd b,
+  incr Bd -> length Hd = length Bd -> length Sd = length Bd ->
+  hd 0 Bd < b -> b <= last Bd 0 ->
+  exists pre sg post, segs Bd Hd Sd = pre ++ sg :: post /\ lo sg < b <= hi sg.
+Proof.
+  induction Bd as [|b0 Bt IH]; intros Hd Sd b Hi LH LS H0 H1; [cbn in *; lra|].
+  destruct Bt as [|b1 Bt]; [cbn in *; lra|].
+  destruct Hd as [|h0 [|h1 Ht]]; try discriminate.
+  destruct Sd as [|s0 [|s1 St]]; try discriminate.
+  rewrite segs_cons2. destruct Hi as [Hlt Hi]. cbn [hd] in H0.
+  change (last (b0 :: b1 :: Bt) 0) with (last (b1 :: Bt) 0) in H1.
+  destruct (Rle_dec b b1) as [Hb | Hb].
+  - exists [], (b0, b1, h0, h1, s0, s1), (segs (b1 :: Bt) (h1 :: Ht) (s1 :: St)).
+    split; [reflexivity|cbn [lo hi]; lra].
+  - destruct (IH (h1 :: Ht) (s1 :: St) b Hi) as (pre & sg & post & Hs & Hb'); auto; [cbn [hd]; lra|].
+    exists ((b0, b1, h0, h1, s0, s1) :: pre), sg, post. split; [rewrite Hs; reflexivity|exact Hb'].
+Qed.
+
+Lemma segs_last_entry : forall Bd Hd Sd pre b0 b1 h0 h1 s0 s1,
+  length Hd = length Bd -> length Sd = length Bd ->
+  segs Bd Hd Sd = pre ++ [(b0, b1, h0, h1, s0, s1)] ->
+  b1 = last Bd 0 /\ h1 = last Hd (czero RA) /\ s1 = last Sd (czero RA).
+Proof.
+  induction Bd as [|a0 Bt IH]; intros Hd Sd pre b0 b1 h0 h1 s0 s1 LH LS Hs.
+  { destruct pre; discriminate. }
+  destruct Bt as [|a1 Bt]. { destruct Hd, Sd; cbn in Hs; destruct pre; discriminate. }
+  destruct Hd as [|g0 [|g1 Ht]]; try discriminate.
+  destruct Sd as [|t0 [|t1 St]]; try discriminate.
+  rewrite segs_cons2 in Hs.
+  change (last (a0 :: a1 :: Bt) 0) with (last (a1 :: Bt) 0).
+  change (last (g0 :: g1 :: Ht) (czero RA)) with (last (g1 :: Ht) (czero RA)).
+  change (last (t0 :: t1 :: St) (czero RA)) with (last (t1 :: St) (czero RA)).
+  destruct pre as [|p pre].
+  - cbn [app] in Hs. apply cons_eq_inv in Hs. destruct Hs as [E Hs].
+    destruct Bt as [|a2 Bt].
+    + destruct Ht; [|discriminate]. destruct St; [|discriminate]. cbn [last].
+      inversion E; subst. auto.
+    + destruct Ht as [|g2 Ht]; [discriminate|]. destruct St as [|t2 St]; [discriminate|].
+      rewrite segs_cons2 in Hs. discriminate.
+  - cbn [app] in Hs. apply cons_eq_inv in Hs. destruct Hs as [_ Hs].
+    apply (IH (g1 :: Ht) (t1 :: St) pre b0 b1 h0 h1 s0 s1); auto.
+Qed.
+
+Lemma segs_first_lo Bd Hd Sd sg post : segs Bd Hd Sd = sg :: post -> lo sg = hd 0 Bd.
+Proof.
+  destruct Bd as [|b0 [|b1 Bt]]; try (destruct Hd, Sd; discriminate).
+  destruct Hd as [|h0 [|h1 Ht]]; try discriminate.
+  destruct Sd as [|s0 [|s1 St]]; try discriminate.
+  rewrite segs_cons2. intros E. apply cons_eq_inv in E. destruct E as [E _]. subst sg. reflexivity.
+Qed.
+
+Section Piecewise.
+  Variables (Bd : list R) (Hd Sd : list Cx).
+  Hypothesis Hi : incr Bd.
+  Hypothesis LH : length Hd = length Bd.
+  Hypothesis LS : length Sd = length Bd.
+  (* a function of B given segment-wise: [piece pre sg] on the closed segment sg (pre = the
+     segments before it), [tailf] beyond the last knot *)
+  Variables (Phi : R -> R) (piece : list seg -> seg -> R -> R) (dpiece : seg -> R -> R)
+            (tailf dtail : R -> R).
+  Hypothesis Hclosed : forall pre sg post, segs Bd Hd Sd = pre ++ sg :: post ->
+    forall x, lo sg <= x <= hi sg -> Phi x = piece pre sg x.
+  Hypothesis Hbeyond : forall x, last Bd 0 < x -> Phi x = tailf x.
+  Hypothesis Dpiece : forall pre sg x, lo sg < hi sg -> is_derive (piece pre sg) x (dpiece sg x).
+  Hypothesis Dtail : forall x, is_derive tailf x (dtail x).
+  Hypothesis Hknot : forall b0 b1 b2 h0 h1 h2 s0 s1 s2, b0 < b1 -> b1 < b2 ->
+    dpiece (b0, b1, h0, h1, s0, s1) b1 = dpiece (b1, b2, h1, h2, s1, s2) b1.
+  Hypothesis Hlastd : forall pre sg, segs Bd Hd Sd = pre ++ [sg] -> dpiece sg (hi sg) = dtail (hi sg).
+  Hypothesis Hlastv : forall pre sg, segs Bd Hd Sd = pre ++ [sg] -> piece pre sg (hi sg) = tailf (hi sg).
+
+  Lemma pw_interior pre sg post B :
+    segs Bd Hd Sd = pre ++ sg :: post -> lo sg < B < hi sg -> is_derive Phi B (dpiece sg B).
+  Proof.
+    intros Hs Hb.
+    apply (is_derive_local (piece pre sg) Phi B _ (Rmin (B - lo sg) (hi sg - B))).
+    - apply Rmin_pos; lra.
+    - intros x Hx. apply (Hclosed pre sg post Hs).
+      pose proof (Rmin_l (B - lo sg) (hi sg - B)). pose proof (Rmin_r (B - lo sg) (hi sg - B)). lra.
+    - apply Dpiece. lra.
+  Qed.
+
+  Lemma pw_right_knot pre sg post :
+    segs Bd Hd Sd = pre ++ sg :: post -> is_derive Phi (hi sg) (dpiece sg (hi sg)).
+  Proof.
+    intros Hs.
+    assert (Hin : In sg (segs Bd Hd Sd)) by (rewrite Hs; apply in_elt).
+    pose proof (segs_bounds _ _ _ _ Hi Hin) as [_ Hlh].
+    destruct post as [|sgR post].
+    - (* last knot *)
+      destruct sg as [[[[[b0 b1] h0] h1] s0] s1].
+      destruct (segs_last_entry Bd Hd Sd pre b0 b1 h0 h1 s0 s1 LH LS Hs) as (E1 & _ & _).
+      cbn [lo hi] in *.
+      apply (is_derive_paste (piece pre (b0, b1, h0, h1, s0, s1)) tailf Phi b1 _ (b1 - b0)); [lra| | | |].
+      + intros x Hx. apply (Hclosed pre _ [] Hs). cbn [lo hi]. lra.
+      + intros x Hx. destruct (Req_dec x b1) as [E | E].
+        * subst x. rewrite (Hclosed pre _ [] Hs) by (cbn [lo hi]; lra).
+          pose proof (Hlastv pre _ Hs) as Hv'. cbn [hi] in Hv'. exact Hv'.
+        * apply Hbeyond. rewrite <- E1. lra.
+      + apply Dpiece. cbn [lo hi]. lra.
+      + pose proof (Hlastd pre _ Hs) as Hd'. cbn [hi] in Hd'. rewrite Hd'. apply Dtail.
+    - destruct (segs_adjacent _ _ _ _ _ _ _ Hs) as (b0 & b1 & b2 & h0 & h1 & h2 & s0 & s1 & s2 & EL & ER).
+      subst sg sgR. cbn [lo hi] in *.
+      assert (HinR : In (b1, b2, h1, h2, s1, s2) (segs Bd Hd Sd)).
+      { rewrite Hs. apply in_or_app. right. right. left. reflexivity. }
+      pose proof (segs_bounds _ _ _ _ Hi HinR) as [_ HlhR]. cbn [lo hi] in HlhR.
+      assert (Hs' : segs Bd Hd Sd = (pre ++ [(b0, b1, h0, h1, s0, s1)]) ++ (b1, b2, h1, h2, s1, s2) :: post)
+        by (rewrite <- app_assoc; exact Hs).
+      apply (is_derive_paste (piece pre (b0, b1, h0, h1, s0, s1))
+                             (piece (pre ++ [(b0, b1, h0, h1, s0, s1)]) (b1, b2, h1, h2, s1, s2))
+                             Phi b1 _ (Rmin (b1 - b0) (b2 - b1))).
+      + apply Rmin_pos; lra.
+      + intros x Hx. apply (Hclosed pre _ _ Hs). cbn [lo hi].
+        pose proof (Rmin_l (b1 - b0) (b2 - b1)). lra.
+      + intros x Hx. apply (Hclosed _ _ _ Hs'). cbn [lo hi].
+        pose proof (Rmin_r (b1 - b0) (b2 - b1)). lra.
+      + apply Dpiece. cbn [lo hi]. lra.
+      + rewrite (Hknot b0 b1 b2 h0 h1 h2 s0 s1 s2) by lra. apply Dpiece. cbn [lo hi]. lra.
+  Qed.
+
+  (* differentiable at every point beyond the first knot, knots included *)
+  Lemma pw_is_derive pre sg post B :
+    segs Bd Hd Sd = pre ++ sg :: post -> hd 0 Bd < B -> lo sg <= B <= hi sg ->
+    is_derive Phi B (dpiece sg B).
+  Proof.
+    intros Hs H0 Hb.
+    destruct (Req_dec B (hi sg)) as [E | E]; [subst B; apply (pw_right_knot pre sg post Hs)|].
+    destruct (Req_dec B (lo sg)) as [E' | E']; [|apply (pw_interior pre sg post B Hs); lra].
+    destruct pre as [|p pre] using rev_ind.
+    - cbn [app] in Hs. rewrite (segs_first_lo _ _ _ _ _ Hs) in E'. lra.
+    - clear IHpre. rewrite <- app_assoc in Hs. cbn [app] in Hs.
+      destruct (segs_adjacent _ _ _ _ _ _ _ Hs) as (b0 & b1 & b2 & h0 & h1 & h2 & s0 & s1 & s2 & EL & ER).
+      subst p sg. cbn [lo hi] in *. subst B.
+      assert (HinL : In (b0, b1, h0, h1, s0, s1) (segs Bd Hd Sd)) by (rewrite Hs; apply in_elt).
+      pose proof (segs_bounds _ _ _ _ Hi HinL) as [_ HlhL]. cbn [lo hi] in HlhL.
+      rewrite <- (Hknot b0 b1 b2 h0 h1 h2 s0 s1 s2) by lra.
+      apply (pw_right_knot pre (b0, b1, h0, h1, s0, s1) _ Hs).
+  Qed.
+
+  Lemma pw_is_derive_beyond B : last Bd 0 < B -> is_derive Phi B (dtail B).
+  Proof.
+    intros Hb. apply (is_derive_local tailf Phi B _ (B - last Bd 0)); [lra| |apply Dtail].
+    intros x Hx. apply Hbeyond. lra.
+  Qed.
+End Piecewise.
+
+(* ---- instance 1: H(B) with derivative GetdHdB ------------------------------------------ *)
+Definition dherm_at (b : R) (sg : seg) : R := fst (on_seg (dhseg RA b) sg).
+
+Lemma on_seg_hseg_re b sg : fst (on_seg (hseg RA b) sg) = hermite_at b sg.
+Proof. destruct sg as [[[[[b0 b1] h0] h1] s0] s1]. cbn [on_seg hermite_at]. apply hseg_re. Qed.
+
+Lemma segs_lo_nonneg (m : mat (F:=R)) sg : incr (mB m) -> 0 <= hd 0 (mB m) ->
+  In sg (segs (mB m) (mH m) (mS m)) -> 0 <= lo sg.
+Proof. intros Hi H0 Hin. pose proof (segs_bounds _ _ _ _ Hi Hin) as [Hl _]. lra. Qed.
+
+Lemma getH_re_closed (m : mat (F:=R)) pre sg post x :
+  incr (mB m) -> 0 <= hd 0 (mB m) -> segs (mB m) (mH m) (mS m) = pre ++ sg :: post ->
+  lo sg <= x <= hi sg -> fst (getH RA m x) = hermite_at x sg.
+Proof.
+  intros Hi H0 Hs Hx.
+  assert (Hin : In sg (segs (mB m) (mH m) (mS m))) by (rewrite Hs; apply in_elt).
+  pose proof (segs_lo_nonneg m sg Hi H0 Hin) as Hl.
+  assert (Ea : Rabs x = x) by (apply Rabs_pos_eq; lra).
+  rewrite (getH_on_segment m x pre sg post Hi Hs) by (rewrite Ea; exact Hx).
+  rewrite Ea. apply on_seg_hseg_re.
+Qed.
+
+Lemma lastB_ge_hd (m : mat (F:=R)) : incr (mB m) -> mB m <> [] -> hd 0 (mB m) <= lastB RA m.
+Proof.
+  intros Hi Hne. unfold lastB. destruct (mB m) as [|b0 Bt]; [congruence|]. cbn [hd].
+  apply incr_head_le_last. exact Hi.
+Qed.
+
+Theorem getH_is_derive (m : mat (F:=R)) (B : R) :
+  tbl_wf m -> 0 <= hd 0 (mB m) -> hd 0 (mB m) < B ->
+  is_derive (fun x => fst (getH RA m x)) B (fst (getdHdB RA m B)).
+Proof.
+  intros (Hi & LH & LS & Hne) H0 HB.
+  pose proof (lastB_ge_hd m Hi Hne) as Hl.
+  set (tailf := fun x : R => fst (lastH RA m) + fst (lastS RA m) * (x - lastB RA m)).
+  assert (Hbeyond : forall x, last (mB m) 0 < x -> fst (getH RA m x) = tailf x).
+  { intros x Hx. unfold lastB in *. ra_simpl.
+    assert (Ea : Rabs x = x) by (apply Rabs_pos_eq; lra).
+    rewrite (getH_beyond m x Hne) by (unfold lastB; ra_simpl; rewrite Ea; exact Hx).
+    cbn [fst]. rewrite Ea. reflexivity. }
+  destruct (Rlt_dec (lastB RA m) B) as [Hb | Hb].
+  - assert (Ea : Rabs B = B) by (apply Rabs_pos_eq; lra).
+    rewrite (getdHdB_beyond m B Hne) by (rewrite Ea; exact Hb).
+    apply (pw_is_derive_beyond (mB m) (fun x => fst (getH RA m x)) tailf (fun _ => fst (lastS RA m))).
+    + exact Hbeyond.
+    + intros x. unfold tailf. auto_derive; auto. ring.
+    + exact Hb.
+  - destruct (find_seg (mB m) (mH m) (mS m) B Hi LH LS HB ltac:(unfold lastB in Hb; ra_simpl; lra))
+      as (pre & sg & post & Hs & Hbs).
+    assert (Ea : Rabs B = B) by (apply Rabs_pos_eq; lra).
+    rewrite (getdHdB_on_segment m B pre sg post Hi Hs) by (rewrite Ea; lra). rewrite Ea.
+    change (fst (on_seg (dhseg RA B) sg)) with (dherm_at B sg).
+    apply (pw_is_derive (mB m) (mH m) (mS m) Hi LH LS (fun x => fst (getH RA m x))
+             (fun _ sg x => hermite_at x sg) (fun sg x => dherm_at x sg) tailf (fun _ => fst (lastS RA m)))
+      with (pre := pre) (post := post); auto; try lra.
+    + intros pre' sg' post' Hs' x Hx. apply (getH_re_closed m pre' sg' post' x Hi H0 Hs' Hx).
+    + intros _ [[[[[b0 b1] h0] h1] s0] s1] x Hlh. cbn [lo hi] in Hlh. unfold dherm_at. cbn [hermite_at on_seg].
+      apply (is_derive_ext (fun x => fst (hseg RA x b0 b1 h0 h1 s0 s1))).
+      * intros t. apply hseg_re.
+      * apply dhseg_is_derive_re. lra.
+    + intros x. unfold tailf. auto_derive; auto. ring.
+    + intros b0 b1 b2 h0 h1 h2 s0 s1 s2 H01 H12. unfold dherm_at. cbn [on_seg].
+      rewrite dhseg_right, dhseg_left; auto; lra.
+    + intros pre' [[[[[b0 b1] h0] h1] s0] s1] Hs'.
+      destruct (segs_last_entry _ _ _ _ _ _ _ _ _ _ LH LS Hs') as (E1 & E2 & E3).
+      assert (Hin : In (b0, b1, h0, h1, s0, s1) (segs (mB m) (mH m) (mS m))) by (rewrite Hs'; apply in_elt).
+      pose proof (segs_bounds _ _ _ _ Hi Hin) as [_ Hlh]. cbn [lo hi] in Hlh.
+      unfold dherm_at. cbn [on_seg hi]. rewrite dhseg_right by lra. unfold lastS. rewrite E3. reflexivity.
+    + intros pre' [[[[[b0 b1] h0] h1] s0] s1] Hs'.
+      destruct (segs_last_entry _ _ _ _ _ _ _ _ _ _ LH LS Hs') as (E1 & E2 & E3).
+      assert (Hin : In (b0, b1, h0, h1, s0, s1) (segs (mB m) (mH m) (mS m))) by (rewrite Hs'; apply in_elt).
+      pose proof (segs_bounds _ _ _ _ Hi Hin) as [_ Hlh]. cbn [lo hi] in Hlh.
+      cbn [hermite_at hi]. rewrite hermite_at_right by lra. unfold tailf, lastH, lastB. ra_simpl.
+      rewrite <- E1, <- E2. ring.
+Qed.
+
+(* ---- instance 2: energy(B) with derivative H(B) ------------------------------------------ *)
+Lemma is_derive_plus_const (c : R) (f : R -> R) (x l : R) :
+  is_derive f x l -> is_derive (fun t => c + f t) x l.
+Proof.
+  intros H. evar_last.
+  - apply (is_derive_plus (fun _ : R => c) f x zero l); [apply is_derive_const|exact H].
+  - apply plus_zero_l.
+Qed.
+
+Lemma esum_app l1 l2 : esum (l1 ++ l2) = esum l1 + esum l2.
+Proof. induction l1 as [|a l1 IH]; cbn [app esum]; [ring|rewrite IH; ring]. Qed.
+
+Lemma getEnergy_closed (m : mat (F:=R)) pre sg post x :
+  incr (mB m) -> 0 <= hd 0 (mB m) -> segs (mB m) (mH m) (mS m) = pre ++ sg :: post ->
+  lo sg <= x <= hi sg -> getEnergy RA m x = esum pre + eseg_at x sg.
+Proof.
+  intros Hi H0 Hs Hx.
+  assert (Hin : In sg (segs (mB m) (mH m) (mS m))) by (rewrite Hs; apply in_elt).
+  pose proof (segs_lo_nonneg m sg Hi H0 Hin) as Hl.
+  assert (Ea : Rabs x = x) by (apply Rabs_pos_eq; lra).
+  rewrite (getEnergy_on_segment m x pre sg post Hi Hs) by (rewrite Ea; exact Hx).
+  rewrite Ea. reflexivity.
+Qed.
+
+Theorem getEnergy_is_derive (m : mat (F:=R)) (B : R) :
+  tbl_wf m -> 0 <= hd 0 (mB m) -> hd 0 (mB m) < B ->
+  is_derive (getEnergy RA m) B (fst (getH RA m B)).
+Proof.
+  intros Hwf H0 HB. pose proof Hwf as (Hi & LH & LS & Hne).
+  pose proof (lastB_ge_hd m Hi Hne) as Hl.
+  set (tailf := fun x : R => esum (segs (mB m) (mH m) (mS m))
+                             + etail x (lastB RA m) (fst (lastH RA m)) (fst (lastS RA m))).
+  set (dtail := fun x : R => fst (lastH RA m) + fst (lastS RA m) * (x - lastB RA m)).
+  assert (Hbeyond : forall x, last (mB m) 0 < x -> getEnergy RA m x = tailf x).
+  { intros x Hx. unfold lastB in *. ra_simpl.
+    assert (Ea : Rabs x = x) by (apply Rabs_pos_eq; lra).
+    rewrite (getEnergy_beyond m x Hwf) by (unfold lastB; ra_simpl; rewrite Ea; exact Hx).
+    rewrite Ea. reflexivity. }
+  assert (Dtail : forall x, is_derive tailf x (dtail x)).
+  { intros x. unfold tailf, dtail. apply is_derive_plus_const. apply etail_is_derive. }
+  assert (Ea : Rabs B = B) by (apply Rabs_pos_eq; lra).
+  destruct (Rlt_dec (lastB RA m) B) as [Hb | Hb].
+  - rewrite (getH_beyond m B Hne) by (rewrite Ea; exact Hb). cbn [fst]. rewrite Ea.
+    apply (pw_is_derive_beyond (mB m) (getEnergy RA m) tailf dtail Hbeyond Dtail B Hb).
+  - destruct (find_seg (mB m) (mH m) (mS m) B Hi LH LS HB ltac:(unfold lastB in Hb; ra_simpl; lra))
+      as (pre & sg & post & Hs & Hbs).
+    rewrite (getH_re_closed m pre sg post B Hi H0 Hs) by lra.
+    apply (pw_is_derive (mB m) (mH m) (mS m) Hi LH LS (getEnergy RA m)
+             (fun pre sg x => esum pre + eseg_at x sg) (fun sg x => hermite_at x sg) tailf dtail)
+      with (pre := pre) (post := post); auto; try lra.
+    + intros pre' sg' post' Hs' x Hx. apply (getEnergy_closed m pre' sg' post' x Hi H0 Hs' Hx).
+    + intros pre' [[[[[b0 b1] h0] h1] s0] s1] x Hlh. cbn [lo hi] in Hlh. cbn [hermite_at eseg_at].
+      apply is_derive_plus_const. apply eseg_is_derive. lra.
+    + intros b0 b1 b2 h0 h1 h2 s0 s1 s2 H01 H12. cbn [hermite_at].
+      rewrite hermite_at_right, hermite_at_left; auto; lra.
+    + intros pre' [[[[[b0 b1] h0] h1] s0] s1] Hs'.
+      destruct (segs_last_entry _ _ _ _ _ _ _ _ _ _ LH LS Hs') as (E1 & E2 & E3).
+      assert (Hin : In (b0, b1, h0, h1, s0, s1) (segs (mB m) (mH m) (mS m))) by (rewrite Hs'; apply in_elt).
+      pose proof (segs_bounds _ _ _ _ Hi Hin) as [_ Hlh]. cbn [lo hi] in Hlh.
+      cbn [hermite_at hi]. rewrite hermite_at_right by lra. unfold dtail, lastH, lastB. ra_simpl.
+      rewrite <- E1, <- E2. ring.
+    + intros pre' [[[[[b0 b1] h0] h1] s0] s1] Hs'.
+      destruct (segs_last_entry _ _ _ _ _ _ _ _ _ _ LH LS Hs') as (E1 & E2 & E3).
+      assert (Hin : In (b0, b1, h0, h1, s0, s1) (segs (mB m) (mH m) (mS m))) by (rewrite Hs'; apply in_elt).
+      pose proof (segs_bounds _ _ _ _ Hi Hin) as [_ Hlh]. cbn [lo hi] in Hlh.
+      cbn [eseg_at hi]. rewrite eseg_right by lra. unfold tailf. rewrite Hs', esum_app. cbn [esum efull_seg].
+      unfold lastB. ra_simpl. rewrite <- E1. rewrite etail_at_knot. ring.
+Qed.
+
+(* ---- H(|B|) is continuous on the whole real line (first knot at 0) ------------------------ *)
+Lemma getH_even (m : mat (F:=R)) (x : R) : getH RA m (- x) = getH RA m x.
+Proof. unfold getH. ra_simpl. rewrite Rabs_Ropp. reflexivity. Qed.
+
+Lemma segs_head_exists Bd Hd Sd :
+  (2 <= length Bd)%nat -> length Hd = length Bd -> length Sd = length Bd ->
+  exists sg post, segs Bd Hd Sd = sg :: post.
+Proof.
+  intros Hlen LH LS.
+  destruct Bd as [|b0 [|b1 Bt]]; try (cbn in Hlen; lia).
+  destruct Hd as [|h0 [|h1 Ht]]; try discriminate.
+  destruct Sd as [|s0 [|s1 St]]; try discriminate.
+  rewrite segs_cons2. eauto.
+Qed.
+
+Theorem getH_continuous (m : mat (F:=R)) (B : R) :
+  tbl_wf m -> (2 <= length (mB m))%nat -> hd 0 (mB m) = 0 ->
+  continuous (fun x => fst (getH RA m x)) B.
+Proof.
+  intros Hwf Hlen H0. pose proof Hwf as (Hi & LH & LS & Hne).
+  assert (H0' : 0 <= hd 0 (mB m)) by lra.
+  assert (Hpos : forall b, 0 < b -> continuous (fun x => fst (getH RA m x)) b).
+  { intros b Hb. apply (ex_derive_continuous (fun x => fst (getH RA m x)) b).
+    exists (fst (getdHdB RA m b)). apply getH_is_derive; auto. lra. }
+  destruct (Rtotal_order B 0) as [Hneg | [Hz | Hp]]; [| |apply Hpos; exact Hp].
+  - apply (continuous_ext (fun x => fst (getH RA m (- x)))).
+    { intros x. rewrite getH_even. reflexivity. }
+    apply (continuous_comp (fun x : R => - x) (fun y => fst (getH RA m y))).
+    + apply (continuous_opp (fun x : R => x)). apply continuous_id.
+    + apply Hpos. lra.
+  - subst B.
+    destruct (segs_head_exists _ _ _ Hlen LH LS) as (sg & post & Hs).
+    assert (Hin : In sg (segs (mB m) (mH m) (mS m))) by (rewrite Hs; left; reflexivity).
+    pose proof (segs_bounds _ _ _ _ Hi Hin) as [_ Hlh].
+    pose proof (segs_first_lo _ _ _ _ _ Hs) as Hlo. rewrite H0 in Hlo.
+    apply (continuous_ext_loc _ (fun x => hermite_at (Rabs x) sg)).
+    + assert (Hr : 0 < hi sg) by lra.
+      exists (mkposreal _ Hr). intros y Hy.
+      unfold ball in Hy. cbn in Hy. unfold AbsRing_ball, abs, minus, plus, opp in Hy. cbn in Hy.
+      rewrite Ropp_0, Rplus_0_r in Hy.
+      rewrite <- (getH_re_closed m [] sg post (Rabs y) Hi H0' Hs).
+      * unfold getH. ra_simpl. rewrite Rabs_Rabsolu. reflexivity.
+      * rewrite Hlo. split; [apply Rabs_pos|lra].
+    + apply (continuous_comp Rabs (fun b => hermite_at b sg)).
+      * apply (continuous_abs (K := R_AbsRing)).
+      * destruct sg as [[[[[b0 b1] h0] h1] s0] s1]. cbn [lo hi hermite_at] in *.
+        apply (ex_derive_continuous (fun b => hermite b b0 b1 (fst h0) (fst h1) (fst s0) (fst s1))).
+        exists (fst (dhseg RA (Rabs 0) b0 b1 h0 h1 s0 s1)).
+        apply (is_derive_ext (fun x => fst (hseg RA x b0 b1 h0 h1 s0 s1))).
+        { intros t. apply hseg_re. }
+        apply dhseg_is_derive_re. lra.
+Qed.
+
+(* ---- the stored energy is the integral of H dB from the first knot ------------------------ *)
+Lemma hermite_at_continuous sg x : lo sg < hi sg -> continuous (fun b => hermite_at b sg) x.
+Proof.
+  intros Hl. destruct sg as [[[[[b0 b1] h0] h1] s0] s1]. cbn [lo hi hermite_at] in *.
+  apply (ex_derive_continuous (fun b => hermite b b0 b1 (fst h0) (fst h1) (fst s0) (fst s1))).
+  exists (fst (dhseg RA x b0 b1 h0 h1 s0 s1)).
+  apply (is_derive_ext (fun x => fst (hseg RA x b0 b1 h0 h1 s0 s1))).
+  { intros t. apply hseg_re. }
+  apply dhseg_is_derive_re. lra.
+Qed.
+
+Lemma eseg_at_is_derive sg x : lo sg < hi sg -> is_derive (fun b => eseg_at b sg) x (hermite_at x sg).
+Proof.
+  intros Hl. destruct sg as [[[[[b0 b1] h0] h1] s0] s1]. cbn [lo hi hermite_at eseg_at] in *.
+  apply eseg_is_derive. lra.
+Qed.
+
+Lemma eseg_at_lo sg : lo sg < hi sg -> eseg_at (lo sg) sg = 0.
+Proof.
+  intros Hl. destruct sg as [[[[[b0 b1] h0] h1] s0] s1]. cbn [lo hi eseg_at] in *. apply eseg_left. lra.
+Qed.
+
+Lemma eseg_at_hi sg : lo sg < hi sg -> eseg_at (hi sg) sg = efull_seg sg.
+Proof.
+  intros Hl. destruct sg as [[[[[b0 b1] h0] h1] s0] s1]. cbn [lo hi eseg_at efull_seg] in *.
+  apply eseg_right. lra.
+Qed.
+
+Lemma seg_integral (m : mat (F:=R)) pre sg post B :
+  incr (mB m) -> 0 <= hd 0 (mB m) -> segs (mB m) (mH m) (mS m) = pre ++ sg :: post ->
+  lo sg <= B <= hi sg ->
+  is_RInt (fun x => fst (getH RA m x)) (lo sg) B (eseg_at B sg).
+Proof.
+  intros Hi H0 Hs Hb.
+  assert (Hin : In sg (segs (mB m) (mH m) (mS m))) by (rewrite Hs; apply in_elt).
+  pose proof (segs_bounds _ _ _ _ Hi Hin) as [_ Hlh].
+  apply (is_RInt_ext (fun x => hermite_at x sg)).
+  - intros x Hx. rewrite Rmin_left, Rmax_right in Hx by lra.
+    symmetry. apply (getH_re_closed m pre sg post x Hi H0 Hs). lra.
+  - replace (eseg_at B sg) with (minus (eseg_at B sg) (eseg_at (lo sg) sg)).
+    + apply (is_RInt_derive (fun b => eseg_at b sg) (fun b => hermite_at b sg)).
+      * intros x _. apply eseg_at_is_derive. exact Hlh.
+      * intros x _. apply hermite_at_continuous. exact Hlh.
+    + rewrite eseg_at_lo by exact Hlh. unfold minus, plus, opp. cbn. ring.
+Qed.
+
+Lemma prefix_integral (m : mat (F:=R)) :
+  incr (mB m) -> 0 <= hd 0 (mB m) ->
+  forall pre sg post, segs (mB m) (mH m) (mS m) = pre ++ sg :: post ->
+  is_RInt (fun x => fst (getH RA m x)) (hd 0 (mB m)) (lo sg) (esum pre).
+Proof.
+  intros Hi H0. induction pre as [|p pre IH] using rev_ind; intros sg post Hs.
+  - cbn [app] in Hs. rewrite (segs_first_lo _ _ _ _ _ Hs). cbn [esum].
+    apply (is_RInt_point (fun x => fst (getH RA m x))).
+  - rewrite <- app_assoc in Hs. cbn [app] in Hs.
+    destruct (segs_adjacent _ _ _ _ _ _ _ Hs) as (b0 & b1 & b2 & h0 & h1 & h2 & s0 & s1 & s2 & EL & ER).
+    assert (HinL : In p (segs (mB m) (mH m) (mS m))) by (rewrite Hs; apply in_elt).
+    pose proof (segs_bounds _ _ _ _ Hi HinL) as [_ HlhL].
+    specialize (IH p (sg :: post) Hs).
+    pose proof (seg_integral m pre p (sg :: post) (hi p) Hi H0 Hs ltac:(lra)) as Hseg.
+    rewrite eseg_at_hi in Hseg by exact HlhL.
+    rewrite esum_app. cbn [esum].
+    replace (lo sg) with (hi p) by (subst p sg; reflexivity).
+    replace (esum pre + (efull_seg p + 0)) with (plus (esum pre) (efull_seg p)) by (unfold plus; cbn; ring).
+    apply (@is_RInt_Chasles R_NormedModule _ _ (lo p)); assumption.
+Qed.
+
+Theorem getEnergy_is_RInt (m : mat (F:=R)) (B : R) :
+  tbl_wf m -> (2 <= length (mB m))%nat -> 0 <= hd 0 (mB m) -> hd 0 (mB m) <= B ->
+  is_RInt (fun x => fst (getH RA m x)) (hd 0 (mB m)) B (getEnergy RA m B).
+Proof.
+  intros Hwf Hlen H0 HB. pose proof Hwf as (Hi & LH & LS & Hne).
+  pose proof (lastB_ge_hd m Hi Hne) as Hl.
+  destruct (Rle_dec B (lastB RA m)) as [Hb | Hb].
+  - destruct (Req_dec B (hd 0 (mB m))) as [E | E].
+    + subst B. destruct (segs_head_exists _ _ _ Hlen LH LS) as (sg & post & Hs).
+      pose proof (segs_first_lo _ _ _ _ _ Hs) as Hlo.
+      assert (Hin : In sg (segs (mB m) (mH m) (mS m))) by (rewrite Hs; left; reflexivity).
+      pose proof (segs_bounds _ _ _ _ Hi Hin) as [_ Hlh].
+      rewrite (getEnergy_closed m [] sg post _ Hi H0 Hs) by lra.
+      rewrite <- Hlo, eseg_at_lo by exact Hlh. cbn [esum]. rewrite Rplus_0_l.
+      apply (is_RInt_point (fun x => fst (getH RA m x))).
+    + destruct (find_seg (mB m) (mH m) (mS m) B Hi LH LS ltac:(lra) ltac:(unfold lastB in Hb; ra_simpl; lra))
+        as (pre & sg & post & Hs & Hbs).
+      rewrite (getEnergy_closed m pre sg post B Hi H0 Hs) by lra.
+      change (esum pre + eseg_at B sg) with (plus (esum pre) (eseg_at B sg)).
+      apply (@is_RInt_Chasles R_NormedModule _ _ (lo sg)).
+      * apply (prefix_integral m Hi H0 pre sg post Hs).
+      * apply (seg_integral m pre sg post B Hi H0 Hs). lra.
+  - assert (Hb' : lastB RA m < B) by lra.
+    assert (Ea : Rabs B = B) by (apply Rabs_pos_eq; lra).
+    rewrite (getEnergy_beyond m B Hwf) by (rewrite Ea; exact Hb'). rewrite Ea.
+    destruct (segs_head_exists _ _ _ Hlen LH LS) as (sg0 & post0 & Hs0).
+    assert (Hex : exists pre sg, segs (mB m) (mH m) (mS m) = pre ++ [sg]).
+    { rewrite Hs0. destruct (exists_last (l := sg0 :: post0) ltac:(discriminate)) as (pre & sg & E).
+      exists pre, sg. exact E. }
+    destruct Hex as (pre & sg & Hs).
+    destruct sg as [[[[[b0 b1] h0] h1] s0] s1].
+    destruct (segs_last_entry _ _ _ _ _ _ _ _ _ _ LH LS Hs) as (E1 & E2 & E3).
+    assert (Hin : In (b0, b1, h0, h1, s0, s1) (segs (mB m) (mH m) (mS m))) by (rewrite Hs; apply in_elt).
+    pose proof (segs_bounds _ _ _ _ Hi Hin) as [_ Hlh]. cbn [lo hi] in Hlh.
+    change (esum (segs (mB m) (mH m) (mS m)) + etail B (lastB RA m) (fst (lastH RA m)) (fst (lastS RA m)))
+      with (plus (esum (segs (mB m) (mH m) (mS m))) (etail B (lastB RA m) (fst (lastH RA m)) (fst (lastS RA m)))).
+    apply (@is_RInt_Chasles R_NormedModule _ _ (lastB RA m)).
+    + rewrite Hs. rewrite esum_app. cbn [esum].
+      replace (esum pre + (efull_seg (b0, b1, h0, h1, s0, s1) + 0))
+        with (plus (esum pre) (efull_seg (b0, b1, h0, h1, s0, s1))) by (unfold plus; cbn; ring).
+      apply (@is_RInt_Chasles R_NormedModule _ _ b0).
+      * apply (prefix_integral m Hi H0 pre (b0, b1, h0, h1, s0, s1) [] Hs).
+      * pose proof (seg_integral m pre (b0, b1, h0, h1, s0, s1) [] b1 Hi H0 Hs ltac:(cbn [lo hi]; lra)) as Hseg.
+        pose proof (eseg_at_hi (b0, b1, h0, h1, s0, s1) ltac:(cbn [lo hi]; lra)) as Eh. cbn [hi] in Eh.
+        rewrite Eh in Hseg.
+        cbn [lo] in Hseg. unfold lastB. ra_simpl. rewrite <- E1. exact Hseg.
+    + apply (is_RInt_ext (fun x => fst (lastH RA m) + fst (lastS RA m) * (x - lastB RA m))).
+      * intros x Hx. rewrite Rmin_left, Rmax_right in Hx by lra.
+        assert (Eax : Rabs x = x) by (apply Rabs_pos_eq; lra).
+        rewrite (getH_beyond m x Hne) by (rewrite Eax; lra). cbn [fst]. rewrite Eax. reflexivity.
+      * replace (etail B (lastB RA m) (fst (lastH RA m)) (fst (lastS RA m)))
+          with (minus (etail B (lastB RA m) (fst (lastH RA m)) (fst (lastS RA m)))
+                      (etail (lastB RA m) (lastB RA m) (fst (lastH RA m)) (fst (lastS RA m)))).
+        -- apply (is_RInt_derive (fun x => etail x (lastB RA m) (fst (lastH RA m)) (fst (lastS RA m)))
+                                 (fun x => fst (lastH RA m) + fst (lastS RA m) * (x - lastB RA m))).
+           ++ intros x _. apply etail_is_derive.
+           ++ intros x _.
+              apply (ex_derive_continuous (fun x => fst (lastH RA m) + fst (lastS RA m) * (x - lastB RA m))).
+              auto_derive. auto.
+        -- rewrite etail_at_knot. unfold minus, plus, opp. cbn. ring.
+Qed.
+
+(* ====================================================================================== *)
+(* 11. GetSlopes on a straight-line table: the slopes are the slope of the line, no repair   *)
+(* ====================================================================================== *)
+Lemma line_H_nth (k : Cx) Bd i : (i < length Bd)%nat ->
+  nth i (line_H k Bd) (czero RA) = (nth i Bd 0 * fst k, nth i Bd 0 * snd k).
+Proof.
+  intros Hi. unfold line_H.
+  rewrite (nth_indep _ (czero RA) ((fun b => (b * fst k, b * snd k)) 0)) by (rewrite map_length; exact Hi).
+  apply (map_nth (fun b => (b * fst k, b * snd k))).
+Qed.
+
+Lemma line_S_repeat (k : Cx) Bd : line_S k Bd = repeat k (length Bd).
+Proof. unfold line_S. induction Bd as [|b Bd IH]; [reflexivity|]. cbn [map length repeat]. rewrite IH. reflexivity. Qed.
+
+Lemma incr_nth_lt : forall Bd i, incr Bd -> (S i < length Bd)%nat -> nth i Bd 0 < nth (S i) Bd 0.
+Proof.
+  induction Bd as [|b0 Bt IH]; intros i Hi Hl; [cbn in Hl; lia|].
+  destruct Bt as [|b1 Bt]; [cbn in Hl; lia|]. destruct Hi as [Hlt Hi].
+  destruct i as [|i]; [cbn; exact Hlt|].
+  change (nth (S i) (b0 :: b1 :: Bt) 0) with (nth i (b1 :: Bt) 0).
+  change (nth (S (S i)) (b0 :: b1 :: Bt) 0) with (nth (S i) (b1 :: Bt) 0).
+  apply IH; [exact Hi|cbn in *; lia].
+Qed.
+
+Lemma line_curve_ok_c (k : Cx) : forall Bd, incr Bd ->
+  curve_bad RA Bd (line_H k Bd) (line_S k Bd) = false.
+Proof.
+  induction Bd as [|b0 Bt IH]; intros Hi; [reflexivity|].
+  destruct Bt as [|b1 Bt]; [reflexivity|].
+  unfold line_H, line_S in *. cbn [map]. rewrite curve_bad_cons2. destruct Hi as [Hlt Hi].
+  cbn [fst snd]. rewrite line_seg_ok by lra. cbn [orb]. apply IH. exact Hi.
+Qed.
+
+Theorem get_slopes_line_table fuel lam0 lamfill muo (k : Cx) (Bd : list R) :
+  no_mixing lam0 lamfill false -> incr Bd -> (2 <= length Bd)%nat ->
+  fst (gauss_solve RA (fst (spline_system RA Bd (line_H k Bd)))
+                      (snd (spline_system RA Bd (line_H k Bd)))) = true ->
+  get_slopes RA (S fuel) lam0 lamfill muo Bd (line_H k Bd)
+  = mkSR Bd (line_H k Bd) (line_S k Bd) 0 true true.
+Proof.
+  intros Hnm Hi Hlen Hok. unfold get_slopes. cbn [slopes_loop].
+  destruct (spline_system RA Bd (line_H k Bd)) as [M rhs] eqn:Es. cbn [fst snd] in Hok.
+  destruct (gauss_solve RA M rhs) as [gok Sd] eqn:Eg. cbn [fst] in Hok. subst gok.
+  assert (ES : Sd = line_S k Bd).
+  { rewrite line_S_repeat.
+    apply (line_table_slopes Bd (line_H k Bd) Sd k Hlen).
+    - intros i Hi'. pose proof (incr_nth_lt Bd i Hi Hi'). lra.
+    - intros i Hi'. apply line_H_nth. exact Hi'.
+    - rewrite Es. cbn [fst snd]. exact Eg. }
+  subst Sd. rewrite line_curve_ok_c by exact Hi.
+  rewrite (no_mixing_cond _ _ _ Hnm). reflexivity.
+Qed.
+
+(* ====================================================================================== *)
+(* 12. GetSlopes(0) WITH the fill-factor mixing of lines 324-338 (LamType 0, LamFill < 1)   *)
+(* ====================================================================================== *)
+Lemma lam_point_real (f muo b hr : R) : 0 < f < 1 -> 0 < muo -> 0 < b -> 0 < hr ->
+  lam_point RA f muo (b, (hr, 0)) = (f * b + (1 - f) * muo * hr, (hr, 0)).
+Proof.
+  intros Hf Hm Hb Hh. unfold lam_point, ddivc, caddd, cinv, cmul, cabs. cbn [fst snd]. ra_simpl.
+  assert (E1 : Rltb (Rabs 0) (Rabs hr) = true).
+  { apply Rltb_true. rewrite Rabs_R0. apply Rabs_pos_lt. lra. }
+  rewrite E1. cbn [fst snd].
+  set (mu := 1 / (hr * (1 + 0 / hr * (0 / hr))) * (f * b) + (1 - f) * muo).
+  assert (Emu : mu = f * b / hr + (1 - f) * muo) by (unfold mu; field; lra).
+  assert (Hmu : 0 < mu).
+  { rewrite Emu. assert (0 < f * b / hr) by (apply Rdiv_lt_0_compat; nra).
+    assert (0 < (1 - f) * muo) by nra. lra. }
+  set (im := - (0 / hr) * (1 / (hr * (1 + 0 / hr * (0 / hr)))) * (f * b)).
+  assert (Eim : im = 0) by (unfold im; field; lra).
+  rewrite Eim. 
+  replace (mu * hr - 0 * 0) with (mu * hr) by ring.
+  replace (mu * 0 + 0 * hr) with 0 by ring.
+  assert (Hp : 0 < mu * hr) by nra.
+  assert (E2 : Reqb (mu * hr) 0 = false) by (apply Reqb_false; lra).
+  rewrite E2. cbn [andb].
+  assert (E3 : Rltb (Rabs 0) (Rabs (mu * hr)) = true).
+  { apply Rltb_true. rewrite Rabs_R0. apply Rabs_pos_lt. lra. }
+  rewrite E3.
+  assert (Eb : Rabs (mu * hr) * sqrt (1 + 0 / (mu * hr) * (0 / (mu * hr))) = mu * hr).
+  { replace (1 + 0 / (mu * hr) * (0 / (mu * hr))) with 1 by (field; lra).
+    rewrite sqrt_1, Rabs_pos_eq by lra. ring. }
+  rewrite Eb.
+  assert (E4 : Rltb (Rabs 0) (Rabs mu) = true).
+  { apply Rltb_true. rewrite Rabs_R0. apply Rabs_pos_lt. lra. }
+  rewrite E4. cbn [fst snd].
+  f_equal; [rewrite Emu; field; lra|]. f_equal; field; lra.
 Qed.
